@@ -25,7 +25,8 @@ Families
 
 Observation: pdfminer.ccitt.ccittfaxdecode(data, params) on every case, and
 PDFStream.get_data() through a generated document (image XObjects with /Filter
-/CCITTFaxDecode in four spellings of the filter pipeline) on every case of the
+/CCITTFaxDecode in five spellings of the filter pipeline: name, one-element array, after FlateDecode, after
+ASCIIHexDecode, parameters as an indirect object) on every case of the
 bitmaps / codes / struct / tagged families and on one framing per encoding of pairs.
 
 Oracle: output length == h * ceil(w/8); in every row the first w bits equal the
@@ -80,7 +81,7 @@ SHARD_TIMEOUT = {"quick": 600, "thorough": 3600}
 
 MODES = ["P", "H", "V0", "VR1", "VR2", "VR3", "VL1", "VL2", "VL3"]
 NS_KINDS = ["H_for_V", "H_for_P", "V_for_P"]
-FORMS = ["name", "array", "flate", "ahx"]
+FORMS = ["name", "array", "flate", "ahx", "ref"]
 PDF_BATCH = 250
 
 # exhaustive domains ---------------------------------------------------------
@@ -100,20 +101,18 @@ def _pair_framings(tier: str, w: int) -> int:
     return 2 if w <= 8 else 1
 
 
-def _n_first(w: int) -> int:
-    return 2 ** w
-
-
 def minimums(tier: str) -> Dict[str, int]:
     m: Dict[str, int] = {}
     if tier == "quick":
-        m.update({"evaluations": 450000, "distinct": 300000, "pdf_streams_checked": 150000,
-                  "family:struct": 2500, "family:codes": 1000, "wide_ge_1728": 300, "wide_ge_2624": 60})
-        lo = 400
-    else:
-        m.update({"evaluations": 8000000, "distinct": 6000000, "pdf_streams_checked": 1500000,
-                  "family:struct": 60000, "family:codes": 1500, "wide_ge_1728": 6000, "wide_ge_2624": 1500})
+        m.update({"evaluations": 570000, "distinct": 450000, "pdf_streams_checked": 220000,
+                  "family:pairs": 390000, "family:bitmaps": 160000, "family:struct": 9000, "family:codes": 8000,
+                  "wide_ge_1728": 3000, "wide_ge_2624": 800, "run_ge_2624": 300})
         lo = 5000
+    else:
+        m.update({"evaluations": 8000000, "distinct": 6000000, "pdf_streams_checked": 6000000,
+                  "family:pairs": 5000000, "family:bitmaps": 3000000, "family:struct": 140000, "family:codes": 8000,
+                  "wide_ge_1728": 40000, "wide_ge_2624": 12000, "run_ge_2624": 5000})
+        lo = 50000
     for md in MODES:
         m["mode:" + md] = lo
     for k in NS_KINDS:
@@ -126,7 +125,6 @@ def minimums(tier: str) -> Dict[str, int]:
     m["framing:rows_no_eofb"] = lo
     m["framing:blackis1"] = lo
     m["align_pad_bits"] = lo
-    m["run_ge_2624"] = 20
     for f in FORMS:
         m["pdf_form:" + f] = lo
     # exhaustive domains must be complete
@@ -161,7 +159,7 @@ def shards(tier: str, seed: int) -> List[Dict[str, Any]]:
         out.append({"kind": "codes", "part": k, "parts": ncodes, "sub": 30000 + k})
     # struct
     nstruct = 16 if tier == "quick" else 96
-    per = 170 if tier == "quick" else 700
+    per = 600 if tier == "quick" else 1500
     for k in range(nstruct):
         out.append({"kind": "struct", "n": per, "sub": 40000 + k})
     out.append({"kind": "tagged", "sub": 50000})
@@ -264,13 +262,17 @@ def decode_parms(w: int, h: int, cfg: Dict[str, Any]) -> Dict[str, Any]:
     """The DecodeParms entries (python values) that describe the framing of this case.
 
     style bit 0: spell out entries that have their default value (BlackIs1 false, EncodedByteAlign false,
-    EndOfBlock true); style bit 1: give /Rows although an EOFB terminates the data."""
+    EndOfBlock true); style bit 1: give /Rows although an EOFB terminates the data, respectively leave /Rows
+    out although there is no EOFB (the data simply end)."""
     st = cfg["style"]
     d: Dict[str, Any] = {"K": cfg["K"]}
     if cfg["columns"]:
         d["Columns"] = w
     if not cfg["eofb"]:
-        d["Rows"] = h
+        # Table 11: without EndOfBlock the filter stops after Rows lines or at the end of its data, whichever
+        # comes first; the data end right after the last line (zero pad bits only), so /Rows may also be absent
+        if not st & 2:
+            d["Rows"] = h
         d["EndOfBlock"] = False
     else:
         if st & 2:
@@ -336,7 +338,7 @@ def run_direct(case: Dict[str, Any]) -> Tuple[Optional[Tuple[str, str]], Verdict
     return (key, "ccittfaxdecode w=%d h=%d params=%r data=%s:%s" % (w, h, params, case["data"].hex()[:120], v.detail)), v
 
 
-def _stream_for(case: Dict[str, Any]) -> pdfw.Stream:
+def _stream_for(case: Dict[str, Any], doc: pdfw.Doc) -> pdfw.Stream:
     w, h, cfg = case["w"], case["h"], case["cfg"]
     parms = decode_parms(w, h, cfg)
     data = case["data"]
@@ -358,6 +360,9 @@ def _stream_for(case: Dict[str, Any]) -> pdfw.Stream:
         d["Filter"] = [N("ASCIIHexDecode"), N("CCITTFaxDecode")]
         d["DecodeParms"] = [None, parms]
         data = data.hex().upper().encode() + b">"
+    elif form == "ref":  # the parameter dictionary is an indirect object
+        d["Filter"] = N("CCITTFaxDecode")
+        d["DecodeParms"] = doc.add(parms)
     else:
         raise ValueError(form)
     return pdfw.Stream(d, data)
@@ -370,7 +375,7 @@ def run_pdf(cases: Sequence[Dict[str, Any]]) -> List[Optional[Tuple[str, str]]]:
     from pdfminer.pdftypes import PDFStream
 
     doc = pdfw.Doc()
-    refs = [doc.add(_stream_for(c)) for c in cases]
+    refs = [doc.add(_stream_for(c, doc)) for c in cases]
     xo = {"Im%d" % i: r for i, r in enumerate(refs)}
     pdfw.page_doc([{"content": b"", "resources": {"XObject": xo}}], doc=doc)
     blob = doc.build()
@@ -545,7 +550,7 @@ def run_pairs(spec: Dict[str, Any], rec, ses: Session) -> None:
         for bits, modes in encs:
             for j in range(nfr):
                 al, eo, b1 = FRAMINGS[(counter * nfr + j) % 8]
-                cfg = make_cfg(al, eo, b1, style=(counter + j) & 3, form=FORMS[(counter // 2) % 4])
+                cfg = make_cfg(al, eo, b1, style=(counter + j) & 3, form=FORMS[(counter // 2) % len(FORMS)])
                 data = t6.frame([bits], al, eo)
                 ses.submit(new_case("pairs", w, [ref], data, cfg, [list(modes)]), pdf=(j == counter % nfr))
             counter += 1
@@ -563,7 +568,7 @@ def run_pairs(spec: Dict[str, Any], rec, ses: Session) -> None:
                 n += 1
                 for j in range(nfr):
                     al, eo, b1 = FRAMINGS[(counter * nfr + j) % 8]
-                    cfg = make_cfg(al, eo, b1, style=(counter + j) & 3, form=FORMS[(counter // 2) % 4])
+                    cfg = make_cfg(al, eo, b1, style=(counter + j) & 3, form=FORMS[(counter // 2) % len(FORMS)])
                     data = t6.frame([rb, bits], al, eo)
                     if al:
                         _count_align_pad(rec, [rb, bits])
